@@ -172,6 +172,36 @@ theorem tree_history_linked_layers_verified {D : Type} [DecidableEq D] (H : Byte
     intro n m hn
     exact (this n m hn).2
 
+/-! ### `verifyLayer`, the last check before `Link` -/
+
+def vLayer : Layer Bytes := ⟨[97, 98, 99, 100, 101, 102], 6⟩        -- "abcdef" (digest = pre-image)
+
+/-- the blob file of each scenario (`none`: no file) -/
+def verifyScenario : String → Option (Option Bytes)
+  | "exact" => some (some [97, 98, 99, 100, 101, 102])
+  | "short" => some (some [97, 98, 99])
+  | "oversized-good-prefix" => some (some [97, 98, 99, 100, 101, 102, 120])
+  | "wrong-content" => some (some [97, 98, 99, 100, 101, 88])
+  | "empty" => some (some [])
+  | "missing" => some none
+  | _ => none
+
+theorem verify_table_complete :
+    verifyTable.map (·.1) = ["exact", "short", "oversized-good-prefix", "wrong-content", "empty", "missing"] := by decide
+
+/-- the real `verifyLayer` passes / fails, and keeps / removes the blob file, exactly as the model's
+    verification pass (`verifyPass` of the tree's variant) does, on every relation between the file
+    and the manifest entry — in particular a file LONGER than the manifest's size whose first
+    bytes are right does not pass -/
+theorem verifyLayer_matches_model :
+    verifyTable.all (fun row =>
+      match verifyScenario row.1 with
+      | none => false
+      | some f =>
+        let c : Cache Bytes := { (Cache.empty : Cache Bytes) with files := fun d => if d = vLayer.digest then f else none }
+        let r := verifyPass id (treeCfg 2 none) c ⟨0, 0, [vLayer], none⟩
+        (r.2 == row.2.1) && ((r.1.files vLayer.digest).isSome == row.2.2)) = true := by decide
+
 /-- the working tree offers the config blob to the registry (probe: a push of a manifest with a
     config makes a request naming the config digest) — finding F30 is repaired in /repo (ed2a637ee);
     a tree that loses the repair breaks this theorem -/
